@@ -1,6 +1,7 @@
 package main
 
 import (
+	"encoding/json"
 	"fmt"
 	"math"
 	"runtime"
@@ -376,6 +377,9 @@ func c13(r *mon.Run) {
 		if o.Err != nil {
 			return "error"
 		}
+		if _, merr := json.Marshal(o.V); merr != nil {
+			return "not serialisable: " + mon.Snapshot(o.V) // (a value JSON cannot hold - a non-finite number: compared as it is)
+		}
 		return mon.Snapshot(docs.JSONForm(o.V))
 	}
 	nsh := tierPick(r, 4000, 80000)
@@ -703,7 +707,35 @@ func c13(r *mon.Run) {
 			}
 			t.NontrivialDistinct(1)
 		}}
-	r.Exec(hist, ph, pairs, lph, sh, lsh, tsu, rw, fel, twin, epw, nmw)
+	// the same argument seen again by the same compiled expression (and twice within one search): a function answers the second
+	// time what it answered the first time - strings that are almost numbers, almost identifiers, almost JSON
+	almost := []string{".5", "+1", "5.", "inf", "-inf", "Infinity", "nan", "0x10", "1e", " 1", "1 ", "1_0", "01", "1e5", "-0", "1.50", "0.5", "", "true", "null", "[1]", "\"1\"", "1,5", "\u0661", "1e+", "--1", "1.0e0", "9007199254740993"}
+	almostExprs := []string{"to_number(@)", "[to_number(@), to_number(@)]", "to_number(@) == to_number(@)", "type(to_number(@))", "not_null(to_number(@), 'none')", "[@][*].to_number(@)", "map(&to_number(@), [@, @])", "to_string(to_number(@))", "sort_by([@, '2'], &not_null(to_number(@), `0`))", "length(@)", "[length(@), reverse(@), to_string(@), type(@)]", "starts_with(@, '1') || ends_with(@, '.')", "contains(@, '.')", "to_array(@)", "[@ == '.5', @ < `1`, !@]", "max([@, '0'])", "join(@, [@, @])"}
+	alw := mon.Workload{Name: "arguments-seen-again-by-the-same-compiled-expression", N: len(almostExprs), Batch: 2,
+		Describe: func(i int) string { return almostExprs[i] },
+		Do: func(i int, t *mon.Tally) {
+			expr := almostExprs[i]
+			jp, co := apiCompile(expr)
+			if co.Panicked || co.Err != nil {
+				r.Inconclusive("C13 workload expression does not compile: " + expr)
+				return
+			}
+			for pass := 0; pass < 3; pass++ {
+				for k, sv := range almost {
+					t.Eval()
+					got := canonOut(apiJP(jp, sv))
+					fresh := canonOut(apiCompiledSearch(expr, sv))
+					one := canonOut(apiSearch(expr, sv))
+					if got != fresh || got != one {
+						r.Violate(&mon.Violation{Workload: "arguments-seen-again-by-the-same-compiled-expression", Index: i, API: "(*JMESPath).Search", Expr: expr, Doc: sv,
+							Expected: fmt.Sprintf("pass %d, document %d: like a freshly compiled expression (%s) and the one-shot Search (%s)", pass+1, k+1, clipStr(fresh, 300), clipStr(one, 300)), Observed: clipStr(got, 300), Class: "compiled expression answers differently the second time it sees an argument"})
+						return
+					}
+				}
+			}
+			t.Nontrivial("almost:" + strconv.Itoa(i))
+		}}
+	r.Exec(hist, ph, pairs, lph, sh, lsh, tsu, rw, fel, twin, epw, nmw, alw)
 }
 
 // c13Rewritable: see the workload compiled-versus-one-shot-on-rewritable-shapes.
